@@ -19,7 +19,9 @@ func init() {
 				cfgs = []string{"linux", "linux-race", "darwin", "linux-arm64", "freebsd"}
 			}
 			for _, c := range cfgs {
-				r.use(c)
+				if r.useOpt(c) == nil {
+					continue
+				}
 				c15(r)
 			}
 		})
@@ -192,6 +194,29 @@ func c15(r *Run) {
 			if len(kq) == 1 {
 				created := cmpAtom(errOfCall(kq[0].(ssa.Value), 1), isNilConst, eqRel)
 				r.noLeakOnError("C15.R3:openPoll-kqueue", "once the kqueue exists every error return of openDefaultPoll closes it", fn, kq[0], edgesEstablishing(fn, created), isSysCall("Close"), nil)
+			}
+		}
+	}
+	// the descriptor is closed by the finalizer, which always runs once the callbacks run (C05.R11)
+	r.borrow([]string{"C05.R11:runner-completes", "C05.R8:finalizer-complete:netFD.Close"}, "C05.R", "C15.R3.teardown.", func() { c05(r) })
+	// once a netFD was handed to a connection (init copies it, register() closes it on failure) the dial path does not
+	// close it again through its own copy
+	for _, name := range []string{"(*sysDialer).dialTCP", "(*sysDialer).dialUnix"} {
+		fn := w.MustFn(name)
+		for _, ctorName := range []string{"newTCPConnection", "newUnixConnection"} {
+			ctor := w.MustFn(ctorName)
+			for _, site := range findIns(fn, func(i ssa.Instruction) bool { return isCall(i, ctor) }) {
+				arg := callCommon(site).Args[0]
+				if mi, ok := arg.(*ssa.MakeInterface); ok {
+					arg = mi.X
+				}
+				r.neverReach("C15.R3:ownership-transferred:"+siteKey(w, site), "after the netFD was handed to the connection constructor the dialer never closes it through its own copy (the connection owns the descriptor; a failed registration already closed it)", fn, site, []Start{After(site)},
+					func(i ssa.Instruction) bool {
+						if !isCall(i, w.MustFn("(*netFD).Close")) {
+							return false
+						}
+						return callCommon(i).Args[0] == arg
+					}, nil, nil, nil, "no netFD.Close on the handed-over value")
 			}
 		}
 	}
